@@ -1514,6 +1514,7 @@ def jacobi_per_path(chk, F, body, paths, P, Q, accs):
     root = (theta * theta + 1).pow(E(Fr(1, 2)))
     mag = (apply_fn("abs", theta) + root).recip()
     bad_zero, bad_sign, n_rot, n_signed = [], [], 0, 0
+    bad_small, n_small = [], [0]
     inv = {}
     for pp in paths:
         for nm, role in pp["roles"].items():
@@ -1529,6 +1530,21 @@ def jacobi_per_path(chk, F, body, paths, P, Q, accs):
         if not any(u["arr"] == "A" and u["idx"] == (P, Q) and len(u["frames"]) == 3 and u["rhs"].is_zero_syntactic() for u in pp["updates"]):
             bad_zero.append(path_descr(pp["ctx"])[:120])
         t = (A("D", P) - dup[0]["rhs"]) * apq.recip()
+        # the small-angle form t = a_pq / (d_q - d_p) only where |h| + g == |h| was decided; the general form elsewhere
+        habs = apply_fn("abs", A("D", Q) - A("D", P))
+        for (key, d, b, f) in pp["ctx"].trace:
+            if key[0] == "cmp" and key[1] == "==":
+                l_, r_ = cache.get(key[2]), cache.get(key[3])
+                if l_ is None or r_ is None:
+                    continue
+                l_, r_ = ren(l_), ren(r_)
+                for big, small in ((l_, r_), (r_, l_)):
+                    if equal(small, habs) and not equal(big, habs) and all(a[1] == "A" for a in all_atoms(big - habs)):
+                        n_small[0] += 1
+                        small_form = apq * (A("D", Q) - A("D", P)).recip()
+                        is_small = equal(t, small_form)
+                        if b != is_small:
+                            bad_small.append("|h| + g == |h| decided %s but t = %s" % (b, t.show()[:80]))
         for (key, d, b, f) in pp["ctx"].trace:
             if key[0] == "pred" and key[1] in ("is_negative", "is_positive", "is_sign_negative", "is_sign_positive"):
                 pk = cache.get(key[2])
@@ -1541,6 +1557,9 @@ def jacobi_per_path(chk, F, body, paths, P, Q, accs):
     if n_rot:
         chk.ob("loops|jacobi|annihilated-per-path", not bad_zero, "every rotation path sets the rotated element a_pq to zero", loc,
                found=sorted(set(bad_zero))[:2] or "%d rotation paths" % n_rot)
+        if n_small[0]:
+            chk.ob("loops|jacobi|t-small-angle", not bad_small, "the small-angle form t = a_pq / (d_q - d_p) is used exactly on the paths where "
+                   "a_pq is negligible against |d_q - d_p|", loc, found=sorted(set(bad_small))[:2] or "%d decided paths" % n_small[0])
         if n_signed:
             chk.ob("loops|jacobi|t-sign", not bad_sign, "t = sgn(theta) / (|theta| + sqrt(theta^2 + 1)): negative exactly when theta is negative", loc,
                    found=sorted(set(bad_sign))[:2] or "%d paths with a decided sign" % n_signed)
